@@ -906,6 +906,7 @@ def compute_correlations_nt(
         "process_tensor": process_tensor,
         "initial_state": initial_state,
         "start_time": start_time,
+        "dt": dt_,
         }
 
 #Schedule determines in what order all the correlations are calculated.-------
